@@ -78,13 +78,14 @@ var symTable = map[string]sym{}
 
 func init() {
 	add := func(s sym) { symTable[s.text] = s }
-	for _, t := range []string{"a", "b", "c", "x", "x=1", "x=", "1", "é", "日本", "ü=1", "-1", "1a", "f"} {
+	for _, t := range []string{"a", "b", "c", "x", "y", "z", "b=1", "x=1", "x=", "1", "é", "日本", "ü=1", "-1", "1a", "f"} {
 		add(word(t))
 	}
 	for t := range reservedWords {
 		add(word(t))
 	}
 	add(word("'q'", wSQ("q")))
+	add(word("'x'", wSQ("x")))
 	add(word("'q q'", wSQ("q q")))
 	add(word("''", &ast.Quote{Tok: "'", Value: ast.Word{wLit("")}}))
 	add(word(`"d"`, wDQ(wLit("d"))))
